@@ -124,7 +124,8 @@ class Gen:
                     "mod": r.choice(["ParticleDecays", "A", "StringFlav", self.label(odd=False)]), "par": r.choice(["mixB", "b", "c_1", "probQQtoQ"]),
                     "value": v, "sp": r.choice([(" ", " "), ("", ""), (" ", ""), ("", " ")])}
         if kind == "JetSet":
-            return {"k": "JetSet", "name": r.choice(["MSTJ", "PARJ", "MDCY", "MSTU", "P"]), "idx": r.randint(0, 200), "value": self.numlit()}
+            return {"k": "JetSet", "name": r.choice(["MSTJ", "PARJ", "MDCY", "MSTU", "P"]), "idx": r.randint(0, 200),
+                    "value": self.numlit() if r.random() < 0.8 else r.choice(["9007199254740993", "12345678901234567890", "-36028797018963969", "+18014398509481985", "100000000000000000000001"])}    # integers a double cannot hold
         if kind == "LS":
             return {"k": "LS", "cmd": r.choice(["LSFLAT", "LSNONRELBW", "LSMANYDELTAFUNC"]), "name": nm()}
         if kind == "BW":
